@@ -40,6 +40,11 @@ type c02Case struct {
 	// SendAt > 0: (packet level) the client's request completes (SendPackage returns) only
 	// when SendAt packets of the response have already arrived - a fast server
 	SendAt int `json:"request_completes_after_packets,omitempty"`
+	// Normal: the server's packets are typed NORMAL (0x0F) instead of RESPONSE (0x04)
+	Normal bool `json:"packets_typed_normal,omitempty"`
+	// ZeroReads: (byte level) offsets at which the transport additionally hands out a
+	// zero-size read result (0, nil)
+	ZeroReads []int `json:"zero_size_reads_at,omitempty"`
 	// Log: the fragmented run has Info.DebugLogPackages on (every package received is printed)
 	Log bool `json:"debug_log_packages,omitempty"`
 }
@@ -123,7 +128,7 @@ func runBytes(stream []byte, reads []int, eofWithData bool, logPkgs ...bool) (d 
 	if eofWithData {
 		pipe.EOFWithLastBytes(len(stream))
 	}
-	pipe.FeedPartition(stream, reads)
+	pipe.FeedPartitionZero(stream, reads)
 	if eofWithData {
 		// the reader either ends after the last packet or (if the EOF came with a header read,
 		// where it is not an error yet) starts reporting the end of the transport; either way
@@ -204,7 +209,11 @@ func runCase(c c02Case) (f *vh.Failure) {
 		}
 	}
 	// run B: fragmented
-	packets := rc.Packetise(stream, c.Cuts, rc.BufResponse, 0)
+	ptype := byte(rc.BufResponse)
+	if c.Normal {
+		ptype = 0x0f
+	}
+	packets := rc.Packetise(stream, c.Cuts, ptype, 0)
 	for i := range packets {
 		if len(c.Extra) > 0 {
 			packets[i].Status |= byte(c.Extra[i%len(c.Extra)])
@@ -232,7 +241,13 @@ func runCase(c c02Case) (f *vh.Failure) {
 				}
 			}
 		}
-		B, f = runBytes(tcp, c.Reads, c.EOFWithData, c.Log)
+		reads := c.Reads
+		if len(c.ZeroReads) > 0 {
+			reads = append(append([]int{}, c.Reads...), c.ZeroReads...)
+			sort.Ints(reads)
+			vh.Label("zero-size-reads")
+		}
+		B, f = runBytes(tcp, reads, c.EOFWithData, c.Log)
 	} else {
 		B, f = runPackets(packets, c.SendAt, map[bool]int{true: 1}[c.Log])
 	}
@@ -289,6 +304,9 @@ func runCase(c c02Case) (f *vh.Failure) {
 	}
 	if c.Log {
 		vh.Label("debug-log-packages")
+	}
+	if c.Normal {
+		vh.Label("packets-typed-normal")
 	}
 	if c.Byte {
 		vh.Label("level:byte")
@@ -365,6 +383,7 @@ func TestPacketLevel(t *testing.T) {
 			c.SendAt = rapid.IntRange(1, 4).Draw(rt, "sendat")
 		}
 		c.Log = rapid.IntRange(0, 3).Draw(rt, "log") == 0
+		c.Normal = rapid.IntRange(0, 3).Draw(rt, "normal") == 0
 		if len(stream) < 60 {
 			vh.Sample("packet-level", c)
 		}
@@ -383,6 +402,20 @@ func TestByteLevel(t *testing.T) {
 		c := c02Case{Pkgs: ps, Cuts: respgen.Cuts(rt, len(stream), true), Byte: true, Extra: genExtra(rt), EOFWithData: rapid.IntRange(0, 4).Draw(rt, "eofwithdata") == 0}
 		c.Reads = genReads(rt, rc.Packetise(stream, c.Cuts, rc.BufResponse, 0))
 		c.Log = rapid.IntRange(0, 3).Draw(rt, "log") == 0
+		c.Normal = rapid.IntRange(0, 3).Draw(rt, "normal") == 0
+		if rapid.IntRange(0, 2).Draw(rt, "zeroreads") == 0 {
+			// zero-size read results: at read boundaries already there (a read of 0 before the next
+			// one) or anywhere else (which also splits the data there)
+			total := len(stream) + 8*(len(c.Cuts)+1)
+			for k := rapid.IntRange(1, 4).Draw(rt, "nzero"); k > 0; k-- {
+				if len(c.Reads) > 0 && rapid.Bool().Draw(rt, "atread") {
+					c.ZeroReads = append(c.ZeroReads, c.Reads[rapid.IntRange(0, len(c.Reads)-1).Draw(rt, "which")])
+				} else if total > 1 {
+					z := rapid.IntRange(1, total-1).Draw(rt, "zeroat")
+					c.ZeroReads = append(c.ZeroReads, z, z)
+				}
+			}
+		}
 		if len(stream) < 60 {
 			vh.Sample("byte-level", c)
 		}
